@@ -158,6 +158,8 @@ def _mk_exc(i):
         return KeyError("k")
     if i == 10:
         return BadExtract("bad extract")
+    if i == 11:
+        return MutualA("mutual")
     raise IndexError(i)
 
 
@@ -166,7 +168,7 @@ N_EXC = 10
 # exit attribute: 0 = normal return; else (catch_up, exception index)
 # catch_up: number of enclosing action boundaries the exception crosses after
 # leaving this action before it is caught (99 = to the top of the program).
-EXITS = [None] + [(0, e) for e in range(N_EXC)] + [(1, 0), (99, 0), (1, 3), (99, 6), (2, 2), (0, 10), (99, 10)]
+EXITS = [None] + [(0, e) for e in range(N_EXC)] + [(1, 0), (99, 0), (1, 3), (99, 6), (2, 2), (0, 10), (99, 10), (0, 11)]
 
 
 def exc_name(e):
@@ -234,7 +236,22 @@ def _selfref():
     return x
 
 
+class _NoCopy(object):
+    """Cannot be copied, pickled or turned into JSON."""
+
+    def __deepcopy__(self, memo):
+        raise TypeError("no deepcopy")
+
+    def __copy__(self):
+        raise TypeError("no copy")
+
+    def __reduce_ex__(self, protocol):
+        raise TypeError("no pickle")
+
+
 def hostile_fieldsets():
+    import threading
+
     return [
         {"h": _StrBoom()},
         {"h": _ReprBoom()},
@@ -252,6 +269,10 @@ def hostile_fieldsets():
         {"h": _deep(400)},
         {"h": _selfref()},
         {"x": _BothBoom()},
+        {"h": threading.Lock()},
+        {"h": (i for i in [1])},
+        {"h": _deep(600)},
+        {"h": _NoCopy()},
     ]
 
 
@@ -276,6 +297,14 @@ def _raising_serializer(v):
 
 class BadExtract(Exception):
     """Application exception whose registered extractor raises."""
+
+
+class MutualA(Exception):
+    """Its extractor raises a MutualB, whose extractor raises a MutualA."""
+
+
+class MutualB(Exception):
+    pass
 
 
 TYPED_MSG = MessageType("app:typed", [Field("tv", _wrap, "wrapped")], "typed message")
@@ -415,6 +444,15 @@ class Interp(object):
             raise RuntimeError("extractor failed")
 
         register_exception_extractor(BadExtract, bad_extractor)
+
+        def a_extractor(e):
+            raise MutualB("from A's extractor")
+
+        def b_extractor(e):
+            raise MutualA("from B's extractor")
+
+        register_exception_extractor(MutualA, a_extractor)
+        register_exception_extractor(MutualB, b_extractor)
         for stmt in self.prog:
             try:
                 self.exec_stmt(stmt)
